@@ -1,0 +1,16 @@
+//go:build verif
+
+package cloudprovider
+
+// ASSUMED behaviour of the cloud provider (trusted boundary), over ghost ProvNode: the node the
+// provider currently has each IP (by text) assigned to, "" when unassigned. A call either
+// succeeds (non-nil reply with Success) and takes effect, or changes nothing.
+//@ ghost ProvNode mmap[string]string
+//@ func (CloudProvider).UnAssignIP trusted
+//@   modifies ProvNode, fresh rpc.UnAssignIPReply.*
+//@   ensures (result1 == nil && result0 != nil && result0.Success) ==> ProvNode == old(ProvNode)[in.IPAddress := ""]
+//@   ensures !(result1 == nil && result0 != nil && result0.Success) ==> ProvNode == old(ProvNode)
+//@ func (CloudProvider).AssignIP trusted
+//@   modifies ProvNode, fresh rpc.AssignIPReply.*
+//@   ensures (result1 == nil && result0 != nil && result0.Success) ==> ProvNode == old(ProvNode)[in.IPAddress := in.NodeName]
+//@   ensures !(result1 == nil && result0 != nil && result0.Success) ==> ProvNode == old(ProvNode)
